@@ -159,3 +159,13 @@ Proof.
   rewrite (sig_strings_helper _ HP HE). cbn [bind].
   destruct (e_inputs e); reflexivity.
 Qed.
+
+(* "the parser accepts the parameter" is "the parameter spells a type of Abi/Types.v" (C13) *)
+Theorem parses_iff_grammar p :
+  parses p <->
+  exists t, AbiType.Spec.valid_type t = true /\ AbiType.Spec.spelling t (fp_type p) (map erase (fp_comps p)).
+Proof.
+  destruct p as [n T i x cs]. unfold parses. cbn [erase fp_type fp_comps]. split.
+  - intros [tc H]. apply accept_iff_grammar in H. destruct H as (t & V & S & _). eauto.
+  - intros (t & V & S). destruct (validate_complete t T (map erase cs) V S) as (tc & H & _). eauto.
+Qed.
